@@ -114,6 +114,57 @@ func c17Yield(site string) {
 type c17Op struct {
 	name string
 	run  func(ctx *hcl.EvalContext) string
+	// storm, when set, is what the goroutines call instead of run: the same
+	// call on a second, equal object, so that the object the storm shares has
+	// not been touched by the solo runs that computed the expectations
+	storm func(ctx *hcl.EvalContext) string
+	// prepare is called once the per-goroutine contexts exist
+	prepare func(ctxs []*hcl.EvalContext)
+}
+
+// collectAttrExprs extracts, once, the attribute expressions of a body and of
+// its nested blocks as the spec reads them.
+func collectAttrExprs(body hcl.Body, spec hcldec.Spec, out *[]hcl.Expression) {
+	content, _, _ := body.PartialContent(hcldec.ImpliedSchema(spec))
+	if content == nil {
+		return
+	}
+	add := func(attrs hcl.Attributes) {
+		var names []string
+		for n := range attrs {
+			names = append(names, n)
+		}
+		sort.Strings(names)
+		for _, n := range names {
+			*out = append(*out, attrs[n].Expr)
+		}
+	}
+	add(content.Attributes)
+	obj, _ := spec.(hcldec.ObjectSpec)
+	for _, blk := range content.Blocks {
+		for _, sub := range obj {
+			switch bs := sub.(type) {
+			case *hcldec.BlockTupleSpec:
+				if bs.TypeName == blk.Type {
+					collectAttrExprs(blk.Body, bs.Nested, out)
+				}
+			case *hcldec.BlockObjectSpec:
+				if bs.TypeName == blk.Type {
+					collectAttrExprs(blk.Body, bs.Nested, out)
+				}
+			case *hcldec.BlockSpec:
+				if bs.TypeName == blk.Type {
+					collectAttrExprs(blk.Body, bs.Nested, out)
+				}
+			case *hcldec.BlockAttrsSpec:
+				if bs.TypeName == blk.Type {
+					if ja, _ := blk.Body.JustAttributes(); ja != nil {
+						add(ja)
+					}
+				}
+			}
+		}
+	}
 }
 
 type c17Prog struct {
@@ -260,8 +311,8 @@ func c17Program(c *core.Case) (*c17Prog, *gen.Scope) {
 			return nil
 		})
 		p.ops = []c17Op{
-			{"Expression.Value", func(ctx *hcl.EvalContext) string { return valDiagKey(e.Value(ctx)) }},
-			{"Expression.Variables", func(ctx *hcl.EvalContext) string { return travKey(e.Variables()) }},
+			{name: "Expression.Value", run: func(ctx *hcl.EvalContext) string { return valDiagKey(e.Value(ctx)) }},
+			{name: "Expression.Variables", run: func(ctx *hcl.EvalContext) string { return travKey(e.Variables()) }},
 		}
 		return p, sc
 	case k < 8:
@@ -321,13 +372,35 @@ func c17Program(c *core.Case) (*c17Prog, *gen.Scope) {
 			p.splats = strings.Count(p.src, "*")
 		}
 		p.ops = []c17Op{
-			{"hcldec.Decode", func(ctx *hcl.EvalContext) string { return valDiagKey(hcldec.Decode(hb, spec, ctx)) }},
-			{"hcldec.Variables", func(ctx *hcl.EvalContext) string { return travKey(hcldec.Variables(hb, spec)) }},
-			{"Body.PartialContent+JustAttributes", func(ctx *hcl.EvalContext) string { return contentKey(hb, schema, ctx) }},
-			{"hcldec.PartialDecode", func(ctx *hcl.EvalContext) string {
+			{name: "hcldec.Decode", run: func(ctx *hcl.EvalContext) string { return valDiagKey(hcldec.Decode(hb, spec, ctx)) }},
+			{name: "hcldec.Variables", run: func(ctx *hcl.EvalContext) string { return travKey(hcldec.Variables(hb, spec)) }},
+			{name: "Body.PartialContent+JustAttributes", run: func(ctx *hcl.EvalContext) string { return contentKey(hb, schema, ctx) }},
+			{name: "hcldec.PartialDecode", run: func(ctx *hcl.EvalContext) string {
 				v, _, d := hcldec.PartialDecode(hb, spec, ctx)
 				return valDiagKey(v, d)
 			}},
+		}
+		{
+			// one remaining body shared by all goroutines
+			full := &hcl.BodySchema{}
+			for _, a := range body.Attrs() {
+				full.Attributes = append(full.Attributes, hcl.AttributeSchema{Name: a.Name})
+			}
+			seen := map[string]bool{}
+			for _, blk := range body.Blocks() {
+				if !seen[blk.Type] {
+					seen[blk.Type] = true
+					full.Blocks = append(full.Blocks, hcl.BlockHeaderSchema{Type: blk.Type})
+				}
+			}
+			var remSolo, remStorm hcl.Body
+			p.ops = append(p.ops, c17Op{name: "shared remaining body: PartialContent+JustAttributes",
+				prepare: func(ctxs []*hcl.EvalContext) {
+					_, remSolo, _ = hb.PartialContent(schema)
+					_, remStorm, _ = hb.PartialContent(schema)
+				},
+				run:   func(ctx *hcl.EvalContext) string { return contentKey(remSolo, full, ctx) },
+				storm: func(ctx *hcl.EvalContext) string { return contentKey(remStorm, full, ctx) }})
 		}
 		return p, sc
 	default:
@@ -365,10 +438,10 @@ func c17Program(c *core.Case) (*c17Prog, *gen.Scope) {
 			}
 		}
 		p.ops = []c17Op{
-			{"Expand.PartialContent(shared schema)+remain.PartialContent(shared schema)", func(ctx *hcl.EvalContext) string {
+			{name: "Expand.PartialContent(shared schema)+remain.PartialContent(shared schema)", run: func(ctx *hcl.EvalContext) string {
 				return contentKey2(dynblock.Expand(f.Body, ctx), half, rest, ctx)
 			}},
-			{"Expand.Content(shared schema)", func(ctx *hcl.EvalContext) string {
+			{name: "Expand.Content(shared schema)", run: func(ctx *hcl.EvalContext) string {
 				content, diags := dynblock.Expand(f.Body, ctx).Content(full)
 				var parts []string
 				if content != nil {
@@ -379,12 +452,33 @@ func c17Program(c *core.Case) (*c17Prog, *gen.Scope) {
 				}
 				return strings.Join(parts, ";") + " || " + diagCmpKey(diags)
 			}},
-			{"Decode(dynblock.Expand)", func(ctx *hcl.EvalContext) string {
+			{name: "Decode(dynblock.Expand)", run: func(ctx *hcl.EvalContext) string {
 				return valDiagKey(hcldec.Decode(dynblock.Expand(f.Body, ctx), spec, ctx))
 			}},
-			{"dynblock.VariablesHCLDec", func(ctx *hcl.EvalContext) string {
+			{name: "dynblock.VariablesHCLDec", run: func(ctx *hcl.EvalContext) string {
 				return travKey(dynblock.VariablesHCLDec(f.Body, spec)) + " / " + travKey(dynblock.ExpandVariablesHCLDec(f.Body, spec))
 			}},
+		}
+		{
+			// content extracted once from one expansion; its attribute
+			// expressions are then evaluated by every goroutine in its own context
+			var exSolo, exStorm []hcl.Expression
+			evalAll := func(exprs []hcl.Expression, ctx *hcl.EvalContext) string {
+				var sb strings.Builder
+				for _, e := range exprs {
+					sb.WriteString(valDiagKey(e.Value(ctx)))
+					sb.WriteString("\n")
+				}
+				return sb.String()
+			}
+			p.ops = append(p.ops, c17Op{name: "attribute expressions of one shared expansion: Value",
+				prepare: func(ctxs []*hcl.EvalContext) {
+					exSolo, exStorm = nil, nil
+					collectAttrExprs(dynblock.Expand(f.Body, ctxs[0]), spec, &exSolo)
+					collectAttrExprs(dynblock.Expand(f.Body, ctxs[0]), spec, &exStorm)
+				},
+				run:   func(ctx *hcl.EvalContext) string { return evalAll(exSolo, ctx) },
+				storm: func(ctx *hcl.EvalContext) string { return evalAll(exStorm, ctx) }})
 		}
 		return p, dp.sc
 	}
@@ -542,6 +636,11 @@ func c17Case(c *core.Case) {
 		}
 		ctxs[i] = ctx
 	}
+	for _, op := range p.ops {
+		if op.prepare != nil {
+			op.prepare(ctxs)
+		}
+	}
 	// solo runs (before the storm), twice: the call must be repeatable alone
 	for i := 0; i < G; i++ {
 		expected[i] = make([]string, len(p.ops))
@@ -598,7 +697,11 @@ func c17Case(c *core.Case) {
 						break
 					}
 				}
-				got := p.ops[k].run(ctxs[i])
+				call := p.ops[k].run
+				if p.ops[k].storm != nil {
+					call = p.ops[k].storm
+				}
+				got := call(ctxs[i])
 				inCall.Add(-1)
 				if got != expected[i][k] {
 					mmMu.Lock()
